@@ -221,10 +221,7 @@ func c37Set(r *Rec, g0, g1 *d2graph.Graph, pre, post *PBoard, bad func(string, s
 			got, _ = styleValue(&e1.Attributes, strings.TrimPrefix(field, "style."))
 		}
 		if !eq(got) {
-			if old := edgeField(g0, abs, field); old == got && strings.Contains(r.Pre, "*") {
-				return bad("set:connection-"+field+tagged+":value-unchanged:diagram-has-glob", fmt.Sprintf("%s of %s is still %q afterwards, %q was given (a glob in the text assigns this attribute)", field, abs, got, v))
-			}
-			return bad("set:connection-"+field+tagged+":value-differs:"+valueClass(v), fmt.Sprintf("%s of %s is %q afterwards, %q was given", field, abs, got, v))
+			return bad("set:connection-"+field+tagged+":"+setEffect(r, edgeField(g0, abs, field), got, v, false), fmt.Sprintf("%s of %s is %q afterwards, %q was given", field, abs, got, v))
 		}
 		if what, det := diffExisting(pre, post, "", abs); what != "" {
 			return bad("set:connection-"+field+tagged+":other-"+what, det)
@@ -254,12 +251,7 @@ func c37Set(r *Rec, g0, g1 *d2graph.Graph, pre, post *PBoard, bad func(string, s
 		got, _ = styleValue(&o1.Attributes, strings.TrimPrefix(field, "style."))
 	}
 	if !eq(got) {
-		if old := objField(g0, abs, field); old == got && pre.By[abs] != nil && pre.By[abs].Imported {
-			return bad("set:object-"+field+tagged+":value-unchanged:target-defined-in-imported-file", fmt.Sprintf("%s of %s is still %q afterwards, %q was given (the object comes from an imported file)", field, abs, got, v))
-		} else if old == got && strings.Contains(r.Pre, "*") {
-			return bad("set:object-"+field+tagged+":value-unchanged:diagram-has-glob", fmt.Sprintf("%s of %s is still %q afterwards, %q was given (a glob in the text assigns this attribute)", field, abs, got, v))
-		}
-		return bad("set:object-"+field+tagged+":value-differs:"+valueClass(v), fmt.Sprintf("%s of %s is %q afterwards, %q was given", field, abs, got, v))
+		return bad("set:object-"+field+tagged+":"+setEffect(r, objField(g0, abs, field), got, v, pre.By[abs] != nil && pre.By[abs].Imported), fmt.Sprintf("%s of %s is %q afterwards, %q was given", field, abs, got, v))
 	}
 	if what, det := diffExisting(pre, post, abs, ""); what != "" {
 		return bad("set:object-"+field+tagged+":other-"+what, det)
@@ -268,6 +260,33 @@ func c37Set(r *Rec, g0, g1 *d2graph.Graph, pre, post *PBoard, bad func(string, s
 		return bad("set:object-"+field+tagged+":element-added", fmt.Sprintf("%d objects / %d connections before, %d / %d afterwards", len(pre.Objs), len(pre.Edges), len(post.Objs), len(post.Edges)))
 	}
 	return eng.OK("ok:set:object:"+field+tagged+":"+valueClass(v), true)
+}
+
+// setEffect names what a Set did instead of what was asked (mechanism part of the failure class).
+func setEffect(r *Rec, old, got, v string, imported bool) string {
+	var eff string
+	switch {
+	case got == old:
+		eff = "value-unchanged"
+	case strings.EqualFold(got, v):
+		eff = "letter-case-changed:" + valueClass(v)
+	case old != "" && strings.HasPrefix(got, old) && strings.HasSuffix(got, v):
+		eff = "new-value-appended-to-old-value"
+	default:
+		eff = "other-value:" + valueClass(v)
+	}
+	if strings.HasPrefix(eff, "letter-case-changed") {
+		return eff // a matter of how the value is written, wherever the element lives
+	}
+	if imported {
+		eff += ":target-defined-in-imported-file"
+	} else {
+		eff += seedFeature(r)
+	}
+	if len(r.Op.B) > 0 {
+		eff += ":" + targetOrigin(r)
+	}
+	return eff
 }
 
 func objField(g *d2graph.Graph, abs, field string) string {
